@@ -16,7 +16,29 @@ LEVEL_NOTE = ("Trusted: Lean kernel, standard axioms; the zipper mirror lean/Any
               "(identity comparison; classes overriding __eq__/__bool__ are C17's subject). 'Correct immediately after any "
               "mutation' is by construction in the model (the functions take only the current links) and is validated by the "
               "history cases; the formal bridge lemma from model A to trees is not proved.")
-THEOREMS = []
+THEOREMS = [
+    ("Anytree.Props.C04.path_eq", "full"),
+    ("Anytree.Props.C04.path_chain", "full"),
+    ("Anytree.Props.C04.ancestors_eq", "full"),
+    ("Anytree.Props.C04.root_eq", "full"),
+    ("Anytree.Props.C04.root_is_path_head", "full"),
+    ("Anytree.Props.C04.depth_eq", "full"),
+    ("Anytree.Props.C04.depth_eq_len_ancestors", "full"),
+    ("Anytree.Props.C04.isRoot_eq", "full"),
+    ("Anytree.Props.C04.isLeaf_eq", "full"),
+    ("Anytree.Props.C04.siblings_eq", "full"),
+    ("Anytree.Props.C04.descendants_eq", "full"),
+    ("Anytree.Props.C04.leaves_eq", "full"),
+    ("Anytree.Props.C04.size_eq", "full"),
+    ("Anytree.Props.C04.size_eq_succ_descendants", "full"),
+    ("Anytree.Props.C04.height_eq", "full"),
+    ("Anytree.Props.C04.height_spec", "full"),
+    ("Anytree.Props.C04.commonAncestors_eq", "full"),
+    ("Anytree.Props.C04.lcpAll_prefix", "full"),
+    ("Anytree.Props.C04.lcpAll_maximal", "full"),
+    ("Anytree.Props.C04.leftSibling_eq", "full"),
+    ("Anytree.Props.C04.rightSibling_eq", "full"),
+]
 NOT_COVERED = []
 RULE = ("static: every ordered shape up to N nodes (quick 5, thorough 7), shuffled labels, plus a second one-node tree, "
         "all attributes of all nodes, commonancestors for (), every single, every pair, sampled triples; random shapes up "
